@@ -106,7 +106,7 @@ class Types:
                 if head == 'std::vector' and tail in ('::iterator', '::const_iterator'):
                     return T('ptr', args=[self.parse(args[0])])
                 raise Abort('type ' + s)
-            if head == 'std::atomic': return T('atomic', args=[self.parse(args[0])])
+            if head in ('std::atomic', 'std::__atomic_base', '__atomic_base'): return T('atomic', args=[self.parse(args[0])])
             if head == 'std::array': return T('array', args=[self.parse(args[0])], n=self.const_int(args[1]))
             if head == 'std::pair': return T('pair', args=[self.parse(a) for a in args])
             if head == 'std::tuple': return T('tuple', args=[self.parse(a) for a in args])
